@@ -13,6 +13,7 @@ import (
 	"github.com/restic/chunker"
 	"github.com/restic/restic/internal/backend"
 	"github.com/restic/restic/internal/backend/cache"
+	"github.com/restic/restic/internal/backend/retry"
 	"github.com/restic/restic/internal/restic"
 	"github.com/restic/restic/internal/verif/hk"
 	"github.com/restic/restic/internal/verif/hx"
@@ -41,13 +42,19 @@ func TestVerifC02(t *testing.T) {
 		version := uint(tp.Range(1, 2))
 		comp := []CompressionMode{CompressionAuto, CompressionOff, CompressionMax}[tp.Choose(3)]
 		withCache := tp.Choose(2) == 0
+		withRetry := tp.Choose(2) == 0
 		budget := []int{1, 2, 4, -1}[tp.Choose(4)]
 		rate := []int{200, 500, 900}[tp.Choose(3)]
 		nOps := tp.Range(3, 12)
 		r.Set("version", version)
 		r.Set("cache", withCache)
+		r.Set("retry_layer", withRetry)
 		r.Set("corrupt_read_permille", rate)
 		r.Set("fault_budget", budget)
+		nFaults := func() int {
+			st := s.Stats()
+			return st["fault:load-corrupt"] + st["fault:load-partial"] + st["fault:load-short-then-err"] + st["fault:load-err-before"]
+		}
 		simrt.Run(r.T, s, 120*time.Second, func() {
 			store := simbe.NewStore(s)
 			proc := s.NewProc("p1", 100, "h")
@@ -135,7 +142,11 @@ func TestVerifC02(t *testing.T) {
 					}
 					items = append(items, item{"index", id, plain})
 				}
-				repo2, err = verifOpenRepo(cl, Options{Compression: comp}, 32<<10)
+				var be2 backend.Backend = cl
+				if withRetry {
+					be2 = retry.New(cl, 15*time.Minute, nil, nil)
+				}
+				repo2, err = verifOpenRepo(be2, Options{Compression: comp}, 32<<10)
 				if err != nil {
 					setupErr = err
 					return
@@ -225,6 +236,11 @@ func TestVerifC02(t *testing.T) {
 			r.Count("blobs_with_same_length_sibling", len(twins))
 			// read faults
 			cl.F = simbe.Faults{CorruptRead: rate, Budget: budget}
+			if withRetry {
+				// downloads also break off half-way or fail outright; the retry layer repeats them
+				cl.F.PartialRead = rate / 2
+				cl.F.ErrBefore = rate / 4
+			}
 			ctx := context.Background()
 			s.Do("reader", proc, func() {
 				for k := 0; k < nOps && !r.Failed(); k++ {
@@ -233,7 +249,7 @@ func TestVerifC02(t *testing.T) {
 						// blobs that have a sibling of the same stored length in their pack (targets of misdirected ranges)
 						it = items[twins[tp.Choose(len(twins))]]
 					}
-					fired0 := s.Stats()["fault:load-corrupt"]
+					fired0 := nFaults()
 					var got []byte
 					var err error
 					what := ""
@@ -297,7 +313,7 @@ func TestVerifC02(t *testing.T) {
 							if fmt.Sprint(keys) != fmt.Sprint(truth[pk]) && s.Stats()["fault:load-misdirected"] == 0 {
 								r.Fail("content-address", "wrong-pack-listing", "ListPackHandles(%s) returned nil error and %d handles that differ from the %d blobs in the pack", pk[:8], len(keys), len(truth[pk]))
 							}
-						} else if s.Stats()["fault:load-corrupt"] == fired0 && !(withCache && s.Stats()["fault:load-corrupt"] > 0) {
+						} else if nFaults() == fired0 && !(withCache && nFaults() > 0) {
 							r.Fail("no-error", "error-without-fault", "ListPackHandles failed without a corrupted read: %v", lerr)
 						}
 						continue
@@ -313,9 +329,9 @@ func TestVerifC02(t *testing.T) {
 						r.Fail("content-address", "wrong-content", "%s(%s %v) returned nil error and %d bytes that are not the content saved under that ID (%d bytes)", what, it.kind, it.id.Str(), len(got), len(it.plain))
 					}
 					// with the cache a corrupted download may sit in the cache and be discarded only once per process
-					clean := s.Stats()["fault:load-corrupt"] == fired0
+					clean := nFaults() == fired0
 					if withCache {
-						clean = s.Stats()["fault:load-corrupt"] == 0
+						clean = nFaults() == 0
 					}
 					if err != nil && clean {
 						r.Fail("no-error", "error-without-fault", "%s(%s %v) failed although no read was corrupted: %v", what, it.kind, it.id.Str(), err)
